@@ -132,6 +132,38 @@ Definition spec_accepts (s : spec) (op : map_op) (o : out) : option spec :=
   | OpCapacity => match o with OutNum n => if Z.of_nat (length s) <=? n then Some s else None | _ => None end
   | OpAllocationSize => match o with OutNum _ => Some s | _ => None end
   | OpDropMap => expect o OutUnit []
+  | OpSetInsert k stamp =>
+      match lookup s k with
+      | Some _ => expect o (OutBool false) s
+      | None => expect o (OutBool true) (put s (mkKV k stamp 0))
+      end
+  | OpSetReplace k stamp =>
+      match lookup s k with
+      | Some e => expect o (OutKV (k_stamp e) 0) (put s (mkKV k stamp (v_val e)))     (* the new object is stored *)
+      | None => expect o OutNone (put s (mkKV k stamp 0))
+      end
+  | OpSetTake k =>
+      match lookup s k with
+      | Some e => expect o (OutKV (k_stamp e) 0) (delete s k)
+      | None => expect o OutNone s
+      end
+  | OpSetGet k => expect o (match lookup s k with Some e => OutKV (k_stamp e) 0 | None => OutNone end) s
+  | OpSetGetOrInsert k stamp =>
+      match lookup s k with
+      | Some e => expect o (OutKV (k_stamp e) 0) s                                   (* keeps the old one *)
+      | None => expect o (OutKV stamp 0) (put s (mkKV k stamp 0))
+      end
+  | OpSetGetOrInsertWith k stamp fk =>
+      match lookup s k with
+      | Some e => expect o (OutKV (k_stamp e) 0) s
+      | None => if fk =? k then expect o (OutKV stamp 0) (put s (mkKV k stamp 0))
+                else match o with OutLibPanic => Some s | _ => None end        (* refuses a non-equivalent value *)
+      end
+  | OpSetRemove k =>
+      match lookup s k with
+      | Some _ => expect o (OutBool true) (delete s k)
+      | None => expect o (OutBool false) s
+      end
   end.
 
 (* After an operation unwound with a user panic (C04): every element still present must be an
@@ -148,6 +180,7 @@ Fixpoint nodup_keys (l : list kv) : bool :=
 Definition op_new_elems (op : map_op) : list kv :=
   match op with
   | OpInsert k st v | OpTryInsert k st v | OpEntryOrInsert k st v | OpEntryInsert k st v => [mkKV k st v]
+  | OpSetInsert k st | OpSetReplace k st | OpSetGetOrInsert k st | OpSetGetOrInsertWith k st _ => [mkKV k st 0]
   | OpEntryAndModify k st _ v => [mkKV k st v]
   | OpExtend kvs => kvs
   | _ => []
